@@ -34,7 +34,7 @@ CONFIG = {
 
 
 def floors(tier):
-    return {"cases": 500, "nontrivial": 300, "partition_selections_compared": 800, "head_tail_compared": 500, "to_delayed_compared": 60,
+    return {"cases": 500, "nontrivial": 300, "partition_selections_compared": 400, "head_tail_compared": 500, "to_delayed_compared": 60,
             "set:sources": 12, "set:chains": 14, "pushdown_rule_firings": 500}
 
 
